@@ -543,6 +543,122 @@ def run_seq(ctx: Ctx, oracle_only=False, scale=1):
 
 
 # ---------------------------------------------------------------------------------------
+# histories: several calls on one and the same Sequential object
+# ---------------------------------------------------------------------------------------
+
+def gen_ops(rng, n):
+    ops = []
+    for _ in range(rng.randint(2, 5)):
+        k = rng.weighted([("r", 4), ("s", 4), ("c", 1)])
+        if k == "r":
+            p = list(range(n)); rng.shuffle(p)
+            if rng.chance(0.15) and n >= 1:      # not a permutation: must be rejected without touching the model
+                how = rng.randint(0, 2)
+                if how == 0: p[rng.randint(0, n - 1)] = p[rng.randint(0, n - 1)] if n > 1 else n
+                elif how == 1: p = p[:-1]
+                else: p[rng.randint(0, n - 1)] = n
+            elif rng.chance(0.5) and n >= 3:
+                # keep some equations in place, move the others (an equation that stays while what it reads moves)
+                p = list(range(n)); i, j = rng.sample(range(n), 2); p[i], p[j] = p[j], p[i]
+            ops.append(["r", p])
+        else:
+            ops.append([k])
+    if not any(o[0] == "s" for o in ops):
+        ops.append(["s"])
+    return ops
+
+
+def seq_state_text(m, eqs, idx):
+    """names / incidence matrix / is_sequential / current equation order of the object, and that order as indices"""
+    after = [idx.get(e.human, -1) for e in m.equations]
+    reads = lambda e: sorted(set(e[1]) | {1000 + x for x in e[3]})
+    names = ",".join(str(name_num(s)) for s in m.lhs_names)
+    im = m.incidence_matrix
+    state = ";".join(f"{eqs[i][0]}:" + csv(reads(eqs[i])) for i in after) if all(i >= 0 for i in after) else "state-has-unknown-equations"
+    return f"names={names};im={bits_of(im) if im.size else ''};isseq={'T' if m.is_sequential else 'F'};state={state}", after
+
+
+def seqops_case(ctx: Ctx, batch: Batch | None, eqs, ops, kind):
+    """a history of reorder_equations / sequentialize / copy calls on one object; every sequentialize() is judged by the order oracle
+    against the order the equations were in just before that call"""
+    case = {"kind": "seqops", "eqs": [[e[0], list(e[1]), list(e[2]), list(e[3])] for e in eqs], "ops": ops, "tag": kind}
+    n = len(eqs)
+    if len({e[0] for e in eqs}) < n:
+        return   # repeated LHS names: known finding, judged by the single-call stream only
+    m = ir.Sequential.from_string(seq_source(eqs))
+    humans = [e.human for e in m.equations]
+    idx = {h: i for i, h in enumerate(humans)}
+    reads = lambda e: sorted(set(e[1]) | {1000 + x for x in e[3]})
+    text, state = seq_state_text(m, eqs, idx)
+    segs = [text]
+    ctx.evaluations += 1
+    ctx.count("seqops:cases")
+    for op in ops:
+        before = list(state)
+        ctx.count(f"seqops:op:{op[0]}")
+        if op[0] == "r":
+            try:
+                m.reorder_equations(list(op[1]))
+                res = "ok"
+            except Exception as e:
+                res = err_kind(e)
+        elif op[0] == "c":
+            original = m
+            m = m.copy()
+            res = "ok"
+            if [e.human for e in original.equations] != [humans[i] for i in before]:
+                ctx.disagree("sequential-histories", case, "copy() changed the original", "original untouched")
+        else:
+            try:
+                order = [int(i) for i in m.sequentialize()]
+                res = "ok:[" + csv(order) + "]"
+            except Exception as e:
+                order = None
+                res = err_kind(e)
+        text, state = seq_state_text(m, eqs, idx)
+        segs.append("res=" + res + ";" + text)
+        if op[0] == "s":
+            # ---- order oracle, relative to the order just before the call ----
+            cur = [eqs[i] for i in before]
+            if order is not None:
+                if sorted(order) != list(range(n)):
+                    ctx.fail("sequentialize", case, f"after {ops}: returned order {order} is not a permutation")
+                elif state != [before[i] for i in order]:
+                    ctx.fail("sequentialize", case, f"after {ops}: equations were {before}, returned order {order}, equations now {state}")
+                elif not seq_valid([eqs[i] for i in state]):
+                    ctx.fail("sequentialize", case, f"after {ops}: sequentialize() returned {order} and left the equations in order {state}, "
+                                                    "in which an equation reads a zero-shift LHS name that no earlier equation determines")
+                elif order != list(range(n)):
+                    ctx.nontriv(("seqops-reordered", n, len(ops), tuple(order[:5])))
+            else:
+                if state != before:
+                    ctx.fail("sequentialize", case, f"after {ops}: sequentialize() raised but the equations moved from {before} to {state}")
+                elif seq_order_exists(cur):
+                    ctx.fail("sequentialize", case, f"after {ops}: sequentialize() raised although a valid order of the equations exists")
+            if any(o[0] == "r" for o in ops[: ops.index(op)]) and before != list(range(n)):
+                ctx.count("seqops:sequentialize-after-reorder")
+        if -1 in state:
+            break
+    req = "seqops " + ";".join(f"{e[0]}:" + csv(reads(e)) for e in eqs) + " | " + " | ".join(
+        ("r " + (csv(o[1]) or "-")) if o[0] == "r" else o[0] for o in ops[: len(segs) - 1])
+    if batch is not None:
+        batch.add(case, req, " | ".join(segs))
+
+
+def run_seqops(ctx: Ctx, oracle_only=False, scale=1):
+    rng = ctx.rng.fork("seqops")
+    b = None if oracle_only else Batch(ctx, "sequential-histories")
+    for _ in range(ctx.n(250, 3000) * scale):
+        kind = rng.weighted([("dag", 6), ("cyclic", 2)])
+        eqs = gen_seq(rng, kind)
+        if len(eqs) > 9 and rng.chance(0.7):
+            eqs = gen_seq(rng, kind)
+        seqops_case(ctx, b, eqs, gen_ops(rng, len(eqs)), kind)
+    if b is not None:
+        b.flush()
+
+
+# ---------------------------------------------------------------------------------------
 # Simultaneous.split_into_blocks (steady incidence matrix path)
 # ---------------------------------------------------------------------------------------
 
